@@ -29,7 +29,11 @@ def packEntry (fmt : PackFmt) (filt : PackFilter) (e : FsEntry) (b : Bucket) : O
       match metaToTarHdr m e.chash with
       | none => .panic "invalid fs.Type"
       | some _ => .ok (b.add m (if m.kind = .file then e.chash else []))
-    | .zip => .ok (b.add m (if m.kind = .file ∨ m.kind = .symlink then e.chash else []))
+    | .zip =>
+      -- the zip format keeps the mtime as an unsigned 32-bit count of seconds: anything else is refused (`fix:` eac95f2;
+      -- before, it was hashed as it is and stored wrapped)
+      if m.mtime.sec < 0 ∨ m.mtime.sec > 4294967295 then .err .packInvalid else
+      .ok (b.add m (if m.kind = .file ∨ m.kind = .symlink then e.chash else []))
 
 def packEntries (fmt : PackFmt) (filt : PackFilter) : List FsEntry → Bucket → Outcome Bucket
   | [], b => .ok b
